@@ -16,6 +16,13 @@ if not ok:
     sys.stderr.write(log[-4000:])
     sys.exit(1)
 vlib.build_ocaml('coredrv', 'core_model', 'coredrv.ml')
+vlib.build_ocaml('opdrv', 'op_model', 'opdrv.ml')
+vlib.build_ocaml('paddrv', 'pad_model', 'paddrv.ml')
+vlib.build_ocaml('codecdrv', 'codec_model', 'codecdrv.ml')
+# the other configurations (sanitizer build, SQLite store, Botan) are built here once; the checks rebuild them
+# incrementally from /repo's working tree on every run
+for v in ('asan', 'ossl-db', 'botan-file', 'botan-db'):
+    vlib.build_repo(v)
 bad = vlib.forbidden_vernacular()
 if bad:
     print('FORBIDDEN:', bad)
